@@ -30,6 +30,7 @@ func (e *Engine) NewEvaluator(bv bool, nameForObs string) *Evaluator {
 	c.globals = map[*ssa.Global]*Object{}
 	c.alloc0 = Var("alloc0", IntSort)
 	c.InlineAll = true
+	c.NoMerge = true // ropes and concrete-shaped data stay per path
 	return &Evaluator{C: c, Eng: e}
 }
 
